@@ -172,6 +172,88 @@ def replay(task, script):
     return [viol] if viol else []
 
 
+DIVE_PATTERNS = ("last", "first", "alternate", "second")
+
+
+def dive_tasks(tier, boxes, oracles, depth=None):
+    """E-dive: one root-to-leaf chain of make_children per descent pattern down to a depth far beyond what deepen() or a
+    bounded run reaches (cell indices beyond 2^64, cells a few ulps wide)."""
+    depth = depth or (70 if tier == "quick" else 140)
+    ts = []
+    for part, K in configs.PART_VARIANTS:
+        for bname, box in boxes:
+            ts.append({"kind": "dive", "label": "dive/%s%s/%s" % (part, K or "", bname), "part": part, "K": K, "domain": box,
+                       "N": depth, "oracles": list(oracles), "cost": 2})
+    return ts
+
+
+def _dive_child(pattern, step, n):
+    if pattern == "last":
+        return n - 1
+    if pattern == "first":
+        return 0
+    if pattern == "alternate":
+        return (n - 1) if step % 2 else 0
+    return min(1, n - 1)
+
+
+def run_dive(task, only=None):
+    st = Stats()
+    h = hash(script_hash({k: v for k, v in task.items() if k != "_h"}))
+    sm = seam()
+    pc = configs.part_class(task["part"], task.get("K"))
+    for pi, pattern in enumerate(DIVE_PATTERNS):
+        if only is not None and pi != only:
+            continue
+        src = ChoiceSource([])
+        sm.set_source(src)
+        rec = ExpansionRecorder()
+        rec.activate()
+        P = pc(domain=copy.deepcopy(task["domain"]))
+        node = P.get_root()
+        viol = None
+        step = 0
+        try:
+            for step in range(task["N"]):
+                if world._GUARD:
+                    world._GUARD.reset()
+                P.make_children(node, newlayer=True)
+                ch = node.get_children()
+                where = "after a chain of %d expansions (pattern '%s')" % (step + 1, pattern)
+                if "C03" in task["oracles"]:
+                    check_tree_index(P, where)
+                if "C02" in task["oracles"]:
+                    check_split(task["part"], task.get("K"), node, ch, where)
+                node = ch[_dive_child(pattern, step, len(ch))]
+                st.states.add(hash((h, pattern, step)))
+                st.transitions.add(hash((h, pattern, step, "t")))
+                st.judged_rounds += 1
+                st.bump("expansions")
+                st.bump("dive_expansions")
+            st.nontrivial.add(hash((h, pattern)))
+        except Violation as v:
+            viol = {"oracle": v.oracle, "message": v.message, "details": _jsonable(v.details)}
+        except HarnessError:
+            raise
+        except Exception as e:  # noqa
+            viol = {"oracle": "%s.crash" % sorted(task["oracles"])[0], "message": "partition operation raised %s: %s after %d chained expansions"
+                    % (type(e).__name__, e, step), "details": {}}
+        if P.get_depth() > st.max_depth:
+            st.max_depth = P.get_depth()
+        st.executions += 1
+        st.outcomes.add(hash((h, pattern, P.get_depth())))
+        if viol:
+            viol.update({"config": {"part": task["part"], "K": task.get("K"), "domain": task["domain"], "algo": None, "params": {}},
+                         "script": [pi], "task": {k: v for k, v in task.items() if k != "_h"}, "T": task["N"]})
+            st.violations.append(viol)
+    return st
+
+
+def replay_dive(task, script):
+    st = run_dive(task, only=script[0] if script else None)
+    return st.violations[:1]
+
+
 def ops_tasks(tier, boxes, oracles, corner=False):
     """The E-ops task list shared by C02 and C03 part A."""
     ts = []
